@@ -31,6 +31,8 @@ abbrev failsIff (r : Except Err Unit) (bad : Prop) [Decidable bad] : Prop :=
   * `is_true` fails iff Strict and the value is a (non-silent) undefined;
   * `assert_iterable`, `try_iter`, `assert_value_not_undefined`, the `Emit` test and
     `Environment::format` fail iff Strict/SemiStrict and the value is a (non-silent) undefined;
+    in every other case `Environment::format` hands the value to the formatter (`ok true`) —
+    also an undefined under the lenient modes and a silent undefined under every mode;
   * the `Slice` test fails iff Strict and the value is undefined (silent or not). -/
 def HelpersMatrix : Prop :=
   (∀ m p, failsIff (handleUndefined m p) (p = true ∧ m ≠ .chainable)) ∧
@@ -39,25 +41,26 @@ def HelpersMatrix : Prop :=
   (∀ m k, failsIff (tryIterChk m k) ((m = .strict ∨ m = .semiStrict) ∧ k = .undef)) ∧
   (∀ m k, failsIff (assertNotUndef m k) ((m = .strict ∨ m = .semiStrict) ∧ k = .undef)) ∧
   (∀ m k, failsIff (emitChk m k) ((m = .strict ∨ m = .semiStrict) ∧ k = .undef)) ∧
-  (∀ m k, failsIff (envFormatChk m k) ((m = .strict ∨ m = .semiStrict) ∧ k = .undef)) ∧
+  (∀ m k, envFormat m k = if (m = .strict ∨ m = .semiStrict) ∧ k = .undef then .error .undefinedError else .ok true) ∧
   (∀ m k, failsIff (sliceChk m k) (m = .strict ∧ k ≠ .defined))
 
 def isErr {α : Type} (r : Except Err α) : Prop := r = .error .undefinedError
 
 /-- **site_matrix**.  For an undefined operand `u` (a missing variable), any state, any mode:
   1. printing fails under Strict and SemiStrict only (default or custom formatter), and otherwise
-     writes the empty string;
+     the undefined is written by `write_escaped` resp. handed to the custom formatter (`emitVia`);
   2. iterating fails under Strict and SemiStrict only, and otherwise is an empty loop;
   3. truth tests (`if`, `not`, `and`, `or`, ternary) fail under Strict only and otherwise see false;
   4. attribute and item access on an undefined (also a silent one) fail everywhere except
      Chainable, where they give undefined; on a defined value a missing attribute gives undefined
      in every mode (so `a.b.c` with a missing `b` fails at `.c`, except under Chainable);
   5. `is defined`, `is undefined` and `default` never fail, with a mode-independent result;
-  6. a *silent* undefined (`x if false`) prints, iterates and truth-tests without error in every mode. -/
+  6. a *silent* undefined (`x if false`) prints (it reaches the formatter in every mode), iterates
+     and truth-tests without error in every mode. -/
 def SiteMatrix : Prop :=
   (∀ m (s : St) r, s.stack = .undef :: r →
       (isErr (step m .emit s) ↔ (m = .strict ∨ m = .semiStrict)) ∧
-      (¬ (m = .strict ∨ m = .semiStrict) → step m .emit s = .ok ({ s with stack := r }.write "").next)) ∧
+      (¬ (m = .strict ∨ m = .semiStrict) → step m .emit s = .ok (s.emitVia r .undef))) ∧
   (∀ m (s : St) r, s.stack = .undef :: r →
       (isErr (step m .pushLoop s) ↔ (m = .strict ∨ m = .semiStrict)) ∧
       (¬ (m = .strict ∨ m = .semiStrict) →
@@ -84,7 +87,7 @@ def SiteMatrix : Prop :=
   (∀ m (s : St) r v o, s.stack = o :: v :: r →
       step m (.applyFilter "default" 2) s = .ok { s with stack := (if v.isUndefined then o else v) :: r }.next) ∧
   (∀ m (s : St) r t, s.stack = .silent :: r →
-      step m .emit s = .ok ({ s with stack := r }.write "").next ∧
+      step m .emit s = .ok (s.emitVia r .silent) ∧
       step m .pushLoop s = .ok { s with stack := r, frames := { loop := some ([], 0) } :: s.frames }.next ∧
       step m (.jumpIfFalse t) s = .ok { s with stack := r, pc := t })
 
@@ -114,7 +117,7 @@ theorem helper_mono :
     (∀ p, ChkMono (handleUndefined · p)) ∧ (∀ k, ChkMono (isTrueChk · k)) ∧
     (∀ k, ChkMono (assertIterable · k)) ∧ (∀ k, ChkMono (tryIterChk · k)) ∧
     (∀ k, ChkMono (assertNotUndef · k)) ∧ (∀ k, ChkMono (emitChk · k)) ∧
-    (∀ k, ChkMono (envFormatChk · k)) ∧ (∀ k, ChkMono (sliceChk · k)) := helperMono
+    (∀ k m m' b, m' ≤ m → envFormat m k = .ok b → envFormat m' k = .ok b) ∧ (∀ k, ChkMono (sliceChk · k)) := helperMono
 
 example : (Mode.lenient ≤ Mode.strict) ∧ assertIterable .strict .silent = .ok () ∧
     assertIterable .strict .undef ≠ .ok () ∧ assertIterable .lenient .undef = .ok () := by decide
@@ -151,20 +154,24 @@ theorem mono {σ ε : Type} (M : Machine σ ε)
 /-- the hypothesis of `mono` is satisfiable by a machine that really consults the mode: a
     one-instruction program printing an undefined succeeds under Lenient and fails under Strict -/
 example : runVm #[.emit] .lenient 5 { stack := [.undef] } = .ok { pc := 1, stack := [], outs := [[""]] } ∧
-    runVm #[.emit] .strict 5 { stack := [.undef] } = .error .undefinedError := by
-  constructor <;> rfl
+    runVm #[.emit] .strict 5 { stack := [.undef] } = .error .undefinedError ∧
+    -- through a custom formatter that shows undefined as `U`: the silent undefined reaches it under Strict too
+    runVm #[.emit] .strict 5 { stack := [.silent], formatter := 2 } = .ok { pc := 1, stack := [], outs := [["U"]], formatter := 2, fmtCalls := 1 } := by
+  refine ⟨?_, ?_, ?_⟩ <;> rfl
 
 /-- **step_mono**: every modelled VM instruction satisfies `StepMono` -/
 theorem step_mono (i : Instr) : StepMono (fun m s => step m i s) := by
   intro m m' s s' h hs
   simp only [step] at hs ⊢
-  cases hg : modeGuard m i s with
-  | error e => simp [hg] at hs
-  | ok u =>
-    cases u
-    have hg' : modeGuard m' i s = .ok () := modeGuard_mono i s m m' h hg
-    rw [hg']
-    simpa [hg] using hs
+  split at hs
+  · exact stepEmit_mono m m' s s' h hs
+  · cases hg : modeGuard m i s with
+    | error e => simp [hg] at hs
+    | ok u =>
+      cases u
+      have hg' : modeGuard m' i s = .ok () := modeGuard_mono i s m m' h hg
+      rw [hg']
+      simpa [hg] using hs
 
 example : step .strict .not { stack := [.undef] } = .error .undefinedError ∧
     step .semiStrict .not { stack := [.undef] } = .ok { pc := 1, stack := [.bool true] } := by
@@ -199,8 +206,8 @@ example :
 theorem site_matrix : SiteMatrix := by
   refine ⟨?_, ?_, ?_, ?_, ?_, ?_, ?_, ?_, ?_⟩
   · intro m s r hs
-    cases m <;> cases hc : s.customFormatter <;>
-      simp [step, modeGuard, exec, hs, hc, isErr, emitChk, envFormatChk, check, V.kind, V.display, lookupRow, Mode.code,
+    by_cases hc : s.formatter = 0 <;> cases m <;>
+      simp [step, stepEmit, hs, hc, isErr, emitChk, envFormat, V.kind, lookupRow, Mode.code,
         UK.code, MJ.Gen.undefVmEmitFails, MJ.Gen.undefEnvFormat]
   · intro m s r hs
     cases m <;> simp [step, modeGuard, exec, hs, isErr, tryIterChk, assertIterable, check, V.kind, V.iterItems, lookupRow,
@@ -224,9 +231,9 @@ theorem site_matrix : SiteMatrix := by
   · intro m s r v o hs
     simp [step, modeGuard, exec, hs, callArgs, filterGuard, filterExec]
   · intro m s r t hs
-    cases m <;> cases hc : s.customFormatter <;>
-      simp [step, modeGuard, exec, hs, hc, emitChk, envFormatChk, tryIterChk, assertIterable, isTrueChk, check, V.kind,
-        V.display, V.iterItems, V.isTrue, lookupRow, Mode.code, UK.code, MJ.Gen.undefVmEmitFails,
+    by_cases hc : s.formatter = 0 <;> cases m <;>
+      simp [step, stepEmit, modeGuard, exec, hs, hc, emitChk, envFormat, tryIterChk, assertIterable, isTrueChk, check, V.kind,
+        V.iterItems, V.isTrue, lookupRow, Mode.code, UK.code, MJ.Gen.undefVmEmitFails,
         MJ.Gen.undefAssertIterable, MJ.Gen.undefIsTrue, MJ.Gen.undefTryIterViaAssertIterable, MJ.Gen.undefEnvFormat]
 
 /-- the nested chain `{{ a.b.c }}` with a defined `a` and a missing `b`, as compiled -/
